@@ -51,6 +51,18 @@ def gen(rnd):
         add_file('ren/plain.txt')
         lines.append("install_data('ren/plain.txt', install_dir: 'share/ren', rename: 'note ')")
         exp.append((P + '/share/ren/note ', 'file', 0o644, None, ''))
+    # a destination that climbs out with `..`: '/../x' IS '/x' (and a relative one that climbs above the root is clamped there), so the
+    # file belongs beneath DESTDIR like every other one.  (The climb is sized to leave DESTDIR by exactly one level: a stray file lands in
+    # the scratch directory of this run, next to DESTDIR, never elsewhere.)
+    if rnd.random() < 0.25:
+        add_file('esc/e.txt')
+        if rnd.random() < 0.5:
+            lines.append("install_data('esc/e.txt', install_dir: '/../esc-abs')")
+            exp.append(('esc-abs/e.txt', 'file', 0o644, None, ''))
+        else:
+            up = '../' * (len(P.split('/')) + 1)
+            lines.append(f"install_data('esc/e.txt', install_dir: {q(up + 'esc-rel')})")
+            exp.append(('esc-rel/e.txt', 'file', 0o644, None, ''))
     # headers
     if rnd.random() < 0.7:
         add_file('inc/h1.h')
@@ -259,6 +271,9 @@ def _inst_chunk(chunk):
                         left = [p_ for p_, (k, _m) in (tree_of(dest) if os.path.isdir(dest) else {}).items() if k != 'dir']
                         if left:
                             fails.append({'case': case, 'stage': 'install-e2e', 'detail': f'after uninstalling by the log these installed files remain: {sorted(left)[:4]}'})
+                stray = sorted(x for x in os.listdir(d) if x not in ('src', 'b', 'stub') and not x.startswith('dest '))
+                if stray:
+                    fails.append({'case': case0, 'stage': 'install-e2e', 'detail': f'written outside DESTDIR (next to it): {stray}'})
                 # dry run writes nothing
                 dest = os.path.join(d, 'dest dry')
                 install(dest, ('--dry-run',))
@@ -280,7 +295,7 @@ def run(REG, tier, seed, jobs):
     seeds = [seed * 32452843 + i for i in range(n)]
     ev, nt, fails = pmap(_inst_chunk, chunked(iter(seeds), 2), jobs)
     return {'parts': [{'name': 'C11/bounded/real-meson-install-runs', 'function': 'meson install --no-rebuild --destdir (real copy / chmod / symlink / log)',
-                       'bound': f'{n} generated projects (install_data with relative and absolute dirs, modes and tags; headers; man pages (also translated ones, whose locale component is dropped from the installed name); install_subdir with excludes, strip_directory and symbolic links pointing out of and into the tree; emptydir (also one whose directory another rule creates first); symlink; a subproject; names with blanks and non-ASCII; 3 prefixes) x 5 selections (all, --tags, --skip-subprojects, both in two ways) + reinstall, uninstall by the log, --dry-run',
+                       'bound': f'{n} generated projects (install_data with relative and absolute dirs, modes and tags; headers; man pages (also translated ones, whose locale component is dropped from the installed name); install_subdir with excludes, strip_directory and symbolic links pointing out of and into the tree; emptydir (also one whose directory another rule creates first); symlink; a subproject; names with blanks and non-ASCII; destinations that climb with `..`; 3 prefixes) x 5 selections (all, --tags, --skip-subprojects, both in two ways) + reinstall, uninstall by the log, --dry-run',
                        'evaluations': ev, 'distinct_nontrivial': nt, 'rule': 'every installation', 'exhaustive': False, 'failures': fails}]}
 
 
